@@ -15,8 +15,8 @@ CHECKS = {
          "DESIGN.md 3/C01"),
  "C02": ("model_checking",
          "explicit-state enumeration of canonical trees; lock-step differential execution of every (state, op) on a real disk filespace (materialised in a scratch dir with canaries outside the root) and a real memfs, both also compared with the tree reference model",
-         "From each of the 361/841 canonical trees every op of the alphabet is applied to both real backends (root and child views). Where the stated preconditions hold (model class MUST-OK) results, returned data/listings (as sets) and the resulting trees must be equal on disk, in memory and in the model; otherwise both must fail cleanly: no panic, nothing outside the addressed paths changes, the host directory outside the root (canary file/dir) is untouched.",
-         "Disk states are materialised with plain os calls; no symlinks/permissions; removal of the real root and directory-into-itself copies are excluded (unbounded on disk).",
+         "From each of the 361/841 canonical trees every op of the alphabet is applied to both real backends (root and child views). Where the stated preconditions hold (model class MUST-OK) results, returned data/listings (as sets) and the resulting trees must be equal on disk, in memory and in the model; otherwise both must fail cleanly: no panic, nothing outside the addressed paths changes, the host directory outside the root (canary file/dir) is untouched. Histories of <=3 operations on retained root/child-view objects run in lock-step on both backends. 58 programs of 2-3 concurrent creations on ONE disk filespace are explored under every schedule with <=2/3 preemptions, every host file system call of the disk packages being a scheduling point: all operations must succeed and the final tree must be a sequential outcome of the model.",
+         "Disk states are materialised with plain os calls; no symlinks/permissions; removal of the real root and directory-into-itself copies are excluded (unbounded on disk); the concurrent programs contain creations only (the disk backend is not linearizable against removals, and the statement quantifies over histories).",
          "DESIGN.md 3/C02"),
  "C03": ("exploration",
          "bounded exhaustive enumeration of path strings x 16 operations x 24 view kinds x preludes on the real code with canaries outside every view root (no sampling)",
@@ -25,21 +25,21 @@ CHECKS = {
          "DESIGN.md 3/C03"),
  "C04": ("fault_enumeration",
          "bounded exhaustive enumeration of stream cases (content x chunking x previous state x buffer x backend) and exhaustive single-fault (thorough: double-fault) positions during every copy helper call over all 25 backend pairs; bounded-preemption schedule exploration of the concurrent tree copy",
-         "Writers: every split of each content into <=3 chunks over every previous destination state on 5 backends, read back through ReadFile and Reader with 4 buffer sizes. Copy helpers (fshelper.Copy, Copier.Do for file and directory, StreamCopy) on 5 tree shapes (one with a 70 KiB file) for every source/destination backend pair, fault-free over 5 destination pre-states (empty, older content, unrelated nodes, files where the source has directories, directories where it has files; nil result => every source node present with kind and bytes), with the failing layer also below the encryption, and once per numbered call crossing the Filespace/Reader/Writer interfaces failing (error and short-write variants): nil result implies a byte-identical destination. fshelper.Copy additionally under every schedule with <=1 (thorough 2) preemptions.",
+         "Writers: every split of each content into <=3 chunks over every previous destination state on 5 backends, read back through ReadFile and Reader with 4 buffer sizes. Copy helpers (fshelper.Copy, Copier.Do for file and directory, StreamCopy) on 6 tree shapes (one with a 70 KiB file; one with sibling names differing by a scratch suffix such as .tmp, the suffixed file created first) for every source/destination backend pair, fault-free over 5 destination pre-states (empty, older content, unrelated nodes, files where the source has directories, directories where it has files; nil result => every source node present with kind and bytes), with the failing layer also below the encryption, and once per numbered call crossing the Filespace/Reader/Writer interfaces failing (error and short-write variants): nil result implies a byte-identical destination. fshelper.Copy additionally under every schedule with <=1 (thorough 2) preemptions.",
          "Faults are injected by a harness-side Filespace wrapper (no source annotation); bool queries fail by answering false; 5 KiB is the largest stream content, 70 KiB the largest copied file.",
          "DESIGN.md 3/C04"),
  "C05": ("fault_enumeration",
          "bounded exhaustive enumeration of cipher/base/secret/salt/host-binding configurations x plaintexts x write/read paths; every truncation length and every single-byte corruption of the stored bytes; name-space lock-step with the tree model; preemption-bounded exhaustive schedule exploration of 2-3 filespaces with different secrets used concurrently",
          "Round trip through all write-path/read-path pairs (incl. overwrite of shorter/longer content), substring secrecy of the raw bytes, nonce freshness, rejection under every other (secret,salt) of the pool, and for the stored bytes of each plaintext EVERY truncation length 0..N-1 and EVERY single-byte corruption (all 255 values for short files) must be answered with an error - never data, never a panic - on a fresh base each time; name-space operations are compared step by step with the tree model through the encrypted filespace.",
-         "crypto/rand.Reader replaced by a deterministic non-repeating stream; concurrent part: 14 programs, <=2/3 preemptions, race oracle on the encryptfs packages; caller buffers are re-used and wiped; cryptographic strength out of scope; long files use strided interior positions (stated in evidence).",
+         "crypto/rand.Reader replaced by a deterministic non-repeating stream; concurrent part: 14 programs, <=2/3 preemptions, race oracle on the encryptfs packages; caller buffers are re-used and wiped; cryptographic strength out of scope; plaintext lengths include 70000 (thorough 140001) with every truncation length on the whole-file paths; corruptions (and truncations on the other paths) of long files use strided interior positions (stated in evidence).",
          "DESIGN.md 3/C05"),
  "C06": ("model_checking",
-         "exhaustive enumeration of bounded cache-operation histories (depth 3/4, 31-op alphabet incl. intermediate Commits and copies onto written paths) over 4 initial remotes on the real fscache, compared with a fold over the tree reference model; exhaustive journal map-order choices and exhaustive failing-remote-call positions during Commit",
-         "Every history is replayed on a fresh cache over a fresh remote; the remote must be untouched before Commit, equal to the model fold after Commit and after a second Commit; for short histories every iteration order of the four journal maps (explorer choice) and every single failing remote call during Commit (then a fault-free Commit) are explored. Three design defects of the cache are recorded as known findings with root-cause matchers; four were repaired.",
+         "exhaustive enumeration of bounded cache-operation histories (depth 3/4, 44-op alphabet incl. intermediate Commits, copies onto written paths, file/directory type changes, a writer closed without a write) over 4 initial remotes on the real fscache, compared with a fold over the tree reference model; exhaustive journal map-order choices and exhaustive failing-remote-call positions during Commit",
+         "Every history is replayed on a fresh cache over a fresh remote; the remote must be untouched before Commit, equal to the model fold after Commit and after a second Commit; for short histories every iteration order of the four journal maps (explorer choice) and every single failing remote call during Commit (then a fault-free Commit) are explored. Six signatures of the cache's design gap (no tombstones, no merged view of buffer and remote) are recorded as known findings with root-cause matchers; three defects were repaired.",
          "Expected remote = tree-model fold of the operations the cache reported successful; histories containing an operation whose outcome is unspecified at that point are skipped (counted), except a file copied onto an existing file: if the cache reports success the destination is a copy from then on.",
          "DESIGN.md 3/C06"),
  "C07": ("model_checking",
-         "same bounded-history enumeration as C06; after every history every read-type operation on an 18-path pool (cache and child views) is compared with the overlay reference model",
+         "same bounded-history enumeration as C06 (thorough: depth 4 on one initial remote); after every history every read-type operation on an 18-path pool (cache and child views) is compared with the overlay reference model",
          "For every history (every prefix is a history of its own) all of IsExist/IsFile/IsDir/ReadFile/Reader/ReadDir/Lstat on 18 overlapping paths, on the cache and on child views of it, must answer like the overlay model (remote + pending successful operations). The cache's missing tombstones are recorded as known findings by root cause (trigger must be present in the history for the very path), everything else is reported.",
          "Overlay model as in C06; the root-cause matchers are predicates over the history, not over the symptom alone.",
          "DESIGN.md 3/C07"),
@@ -60,7 +60,7 @@ CHECKS = {
          "DESIGN.md 3/C11"),
  "C12": ("model_checking",
          "program enumeration x stateless preemption-bounded DFS over all schedules of the real contextscope/scope code under the controlled scheduler, with a vector-clock happens-before race oracle on multi-word fields",
-         "All pairs of single operations {AppendError, Kill, Stop, IsDone, Errors}, curated two-operation threads and three-thread programs on plain, isolated, full and child scopes, plus child creation/closing after and racing with the parent's end; every schedule with <=3 (quick) / <=4 (thorough) preemptions for two threads and <=2/3 for three; readers that act on the done signal, errors recorded through the parent wrapper of a shared context with Err() calls in between; oracle: no panic, error count and identity, done signal, done-implies-error-visible (programs without Stop), the texts of Err()/Wait()/Close()/parent.Err() naming every appended error, no deadlock, no unordered conflicting access to the error slices.",
+         "All pairs of single operations {AppendError, Kill, Stop, IsDone, Errors}, curated two-operation threads and three-thread programs on plain, isolated, full and child scopes, plus child creation/closing after and racing with the parent's end; every schedule with <=3 (quick) / <=4 (thorough) preemptions for two threads and <=2/3 for three; readers that act on the done signal, errors recorded through the parent wrapper of a shared context with Err() calls in between; oracle: no panic, error count and identity, done signal, done-implies-error-visible (programs without Stop), the texts of Err()/Wait()/Close()/parent.Err() naming every appended error, no deadlock, no unordered conflicting access to the error slices. Child-closing programs: a registered child whose close-time listener fails is closed while another goroutine waits on / closes the parent, whose answers must name the listener's error.",
          "Bounds as reported in evidence; word-sized fields are outside the race oracle; the shim's model of Mutex/RWMutex/WaitGroup/channels/select is trusted.",
          "DESIGN.md 3/C12"),
  "C13": ("model_checking",
@@ -70,12 +70,12 @@ CHECKS = {
          "DESIGN.md 3/C13"),
  "C14": ("model_checking",
          "task-graph enumeration x preemption-bounded exhaustive schedule exploration with a happens-before state cache of the real runner/task manager/terminal loop inside a mock application bootstrapped per execution",
-         "Task graphs on 2-3 tasks (all wait shapes), failing-command variants, body durations, a submission waiting for an unknown task / for itself / for a later task, nested pip:run from inside a body, write/read resource locks (also combined with wait lists) and tasks in a sandbox that reports its outcome only by return value are submitted through the real Runner into the real self sandbox; probe commands log begin/end with global steps. Every schedule within the bound is executed (dependent pairs: 1 preemption quick / 2 thorough; other two-task graphs and chains 0/1; three-task graphs with concurrent tasks: thorough only, free switches) and the oracle checks wait order, never-after-failed-prerequisite, sequential bodies stopping at a failing command, refused submissions, TasksManager.Wait's result, lock exclusion, no panic, no deadlock.",
+         "Task graphs on 2-3 tasks (all wait shapes), failing-command variants, body durations, a submission waiting for an unknown task / for itself / for a later task, nested pip:run from inside a body, write/read resource locks (also combined with wait lists) and tasks in a sandbox that reports its outcome only by return value are submitted through the real Runner into the real self sandbox; probe commands log begin/end with global steps. Every schedule within the bound is executed (dependent pairs: 1 preemption quick / 2 thorough; other two-task graphs and chains 0/1; three-task graphs with concurrent tasks: thorough only, free switches) and the oracle checks wait order, never-after-failed-prerequisite, sequential bodies stopping at a failing command, refused submissions, TasksManager.Wait's result, lock exclusion, no panic, no deadlock; after all tasks have finished every named resource must be free again (release check through the application's SharedMutex).",
          "Ready select cases are all explored at no cost; accesses to objects outside the focus packages do not order executions in the happens-before cache (declared reduction); siblings sharing a failed context may be cut short.",
          "DESIGN.md 3/C14"),
  "C15": ("model_checking",
          "configuration enumeration (all lock maps over 2 resources for 2-3 holders) x preemption-bounded exhaustive schedule exploration of the real shared mutex, lock-map iteration order as an explored choice",
-         "Every unordered pair and (tiered) triple of lock maps over resources {a,b} is run as holders Lock/enter/exit/Unlock under every schedule within the preemption bound; exclusion is checked at every entry, every compatible pair must overlap in at least one explored execution (so the lock does not serialise readers or disjoint holders), and no schedule may deadlock (the shim models RWMutex writer preference). The task runner (the lock's main client) is driven through the whole-application harness with 3 programs combining wait lists and write/read locks.",
+         "Every unordered pair and (tiered) triple of lock maps over resources {a,b} is run as holders Lock/enter/exit/Unlock under every schedule within the preemption bound; exclusion is checked at every entry, every compatible pair must overlap in at least one explored execution (so the lock does not serialise readers or disjoint holders), and no schedule may deadlock (the shim models RWMutex writer preference). The task runner (the lock's main client) is driven through the whole-application harness with 5 programs combining wait lists, a failing holder and write/read locks, each ending with a release check (every named resource can be taken for writing once all tasks have finished); 17 hold-until programs over 4 resources; 3-5 command-level pip:run programs.",
          "2 resources, 2-3 holders, bounds as reported.",
          "DESIGN.md 3/C15"),
  "C16": ("model_checking",
@@ -85,23 +85,23 @@ CHECKS = {
          "DESIGN.md 3/C16"),
  "C17": ("exploration",
          "exhaustive enumeration of ALL byte strings up to length 7 (quick) / 9 (thorough) over the 9-symbol alphabet of significant bytes and up to length 4/5 over a 12-symbol alphabet of blank-like bytes, and of all rendered argument lists (<=3 arguments, 14-entry pool, 3 quoting forms, 4 separators)",
-         "Totality, agreement of SplitArguments with ReadArguments and conservation of bytes >= 0x80 are checked on every string; strings without quote/backslash/heredoc against a plain-word reference (per-line fields byte-for-byte, eof flags, exact stop at the newline); strings whose backslashes precede a letter or a continuation newline against the argument-count reference; every rendered list must split back to the original list and leave the next command for the next call; InjectArgs mapping is checked on every list.",
+         "Totality, agreement of SplitArguments with ReadArguments and conservation of bytes >= 0x80 are checked on every string; strings without quote/backslash/heredoc against a plain-word reference (per-line fields byte-for-byte, eof flags, exact stop at the newline); strings whose backslashes precede a letter or a continuation newline against the argument-count reference; every rendered list must split back to the original list and leave the next command for the next call; InjectArgs mapping is checked on every list. 8 command-loop programs (termexec.RunLoop with and without prompt; a command that consumes the line after its own) are explored under every schedule: the next reader finds exactly the bytes after the command's newline.",
          "Length bound as stated (no random part claimed); content of words containing a bare backslash is unspecified by the statement and only counted.",
          "DESIGN.md 3/C17"),
  "C18": ("exploration",
          "exhaustive enumeration of environment values over 12 shell-significant symbols (<=3/4 symbols), 20 word-level symbols (<=2/3) and every byte value in six positions, and of names (<=4 symbols, every byte value); generated scripts executed by the real /bin/sh with a canary command on PATH",
-         "For both start-up script builders (container builder; SSH builder through the verif export hook) every value is configured alone and next to a second variable, the generated script plus NUL-terminated printf lines is fed to /bin/sh on stdin in an empty directory; the shell must print every variable verbatim (up to trailing newlines), exit 0 and leave the directory empty although `a` is a real command that drops a canary file. Every name over 10 symbols accepted by Set/SetAll must be a plain identifier.",
+         "For both start-up script builders (container builder; SSH builder through the verif export hook) every value is configured alone and next to a second variable, the generated script plus NUL-terminated printf lines is fed to /bin/sh on stdin in an empty directory; the shell must print every variable verbatim (up to trailing newlines), exit 0 and leave the directory empty although `a` is a real command that drops a canary file. Every name over 10 symbols accepted by Set/SetAll must be a plain identifier. Heredoc terminators seen in earlier scripts are fed back as value lines under both environment answers for pooled state (modelled sync.Pool keeps everything / nothing); stores filled from shared maps; pairs of scripts built before the first is read.",
          "dash as /bin/sh of this image; no SSH/container engine involved; symbol bound as stated.",
          "DESIGN.md 3/C18"),
  "C19": ("model_checking",
          "exhaustive enumeration of request sequences x configurations against a reference renderer (html/template, text/template); preemption-bounded schedule exploration (happens-before cache) of concurrent first requests with a vector-clock race oracle on the providers' cache maps",
-         "All 819 sequences of <=3 requests (Base, Layout, View incl. default-layout and missing-view spellings) for both providers, helpers present/absent, cached and uncached: every returned template is rendered and compared (output and defined-name set) with a reference built directly on the standard library, cached and uncached outputs must agree position by position. 36 concurrent programs (2-3 threads, first requests for the same/different views, view+layout, base+view) under every schedule within the bound: all callers render like the reference, no error, no unordered conflicting access to the cache maps (how 'no call crashes the process' is decided deterministically).",
-         "One file set with overlapping definitions on all layers; word-sized cache fields are outside the race oracle; bounds as reported.",
+         "All 819 sequences of <=3 requests (Base, Layout, View incl. default-layout and missing-view spellings) for both providers, helpers present/absent, cached and uncached: every returned template is rendered and compared (output and defined-name set) with a reference built directly on the standard library, cached and uncached outputs must agree position by position. 36 concurrent programs (2-3 threads, first requests for the same/different views, view+layout, base+view) under every schedule within the bound: all callers render like the reference, no error, no unordered conflicting access to the cache maps (how 'no call crashes the process' is decided deterministically). 8 single-threaded programs over files with overlapping definitions inside one layer ask the same request twice of an uncached and of a cached provider with the iteration order of every ranged Go map as an explored choice: all answers equal.",
+         "One file set with overlapping definitions across layers, one with overlapping definitions inside the view, layout and helper layers; word-sized cache fields are outside the race oracle; bounds as reported.",
          "DESIGN.md 3/C19"),
  "C20": ("exploration",
          "exhaustive bounded enumeration of nested maps, JSON documents (every leaf string up to 2/3 symbols in every spelling) and flat maps against encoding/json; bounded-preemption schedule exploration of the concurrent loader",
-         "Flatten/rebuild inverse laws on all nested maps (3 keys, depth<=3, <=3/4 leaves); JSON reading compared with encoding/json on 4 document shapes x every leaf string over 9 JSON-significant symbols incl. escaped spellings and surrogate pairs, numbers and skipped leaf kinds; JSON writing (compact and formatted) must be valid for encoding/json, denote the same map and round-trip, for every value string over 14 symbols (incl. U+1F600, U+10000, U+FFFF) and every prefix-free key set of <=3/4 keys over segments that are prefixes of one another; the translation loader is explored under every schedule with <=1-3 preemptions on 8 directory layouts.",
-         "encoding/json is the reference; symbol-length bounds as stated; loader values are %-free.",
+         "Flatten/rebuild inverse laws on all nested maps (3 keys, and the empty string + 1 key, depth<=3, <=3/4 leaves; deep spines to depth 12/20); JSON reading compared with encoding/json on 4 document shapes x every leaf string over 9 JSON-significant symbols incl. escaped spellings and surrogate pairs, numbers and skipped leaf kinds; JSON writing (compact and formatted) must be valid for encoding/json, denote the same map and round-trip, for every value string over 14 symbols (incl. U+1F600, U+10000, U+FFFF) and every prefix-free key set of <=3/4 keys over segments that are prefixes of one another; the translation loader is explored under every schedule with <=1-3 preemptions on 8 directory layouts.",
+         "encoding/json is the reference; symbol-length bounds as stated; loader values are %-free; the flat key '' alone is refused by the rebuild functions by design (explicit error, accepted).",
          "DESIGN.md 3/C20"),
  "C08": ("model_checking",
          "stateless preemption-bounded DFS over all schedules of the real fsloop/jobsync code under a controlled scheduler (vsched), fair-yield rule, per-program bounds",
